@@ -174,7 +174,10 @@ def distinct_part(ctx, binary, res):
             res["infra"].append("TLC QuorumDistinct_MC %s: status=%s violated=%s %s (the invariants are about the SPEC: modelling problem)" % (
                 label, getattr(r, "status", None), getattr(r, "violated", None), getattr(r, "errors", [])[:2]))
             continue
-        acts, states, obs, nedges = j["acts"], j["states"], j["obs"], j["edges"]
+        acts, states, obs, nedges = j.get("acts"), j.get("states"), j.get("obs"), j.get("edges", 0)
+        if acts is None:
+            res["infra"].append("%s: edge cover / replay job died" % label)
+            continue
         pats = {}
         for a in acts:
             for k in resend_patterns(a):
@@ -225,9 +228,29 @@ def distinct_part(ctx, binary, res):
     res["cov"] = cov
 
 
+FIXED_OBLIGATIONS = [("InvQQ", "ok"), ("InvWitness", "ok"), ("InvQForm", "ok"), ("InvQTight", "ok"), ("InvQLive", "ok")]
+
+
 def run(ctx):
     pairs, crypto_max = pairs_for(ctx)
     bins = {}
+    # ---- Apalache (unbounded N, C): the closed-form lemmas do not depend on the code; they run concurrently with everything else.
+    # parallel Apalache / TLC runs: spec staging is serialized (ctx.stage_specs numbers its scratch dirs)
+    res = {}
+
+    def apa(inv):
+        res[inv] = ctx.apalache("Quorum_Apa.tla", inv=inv, length=0, timeout=900)
+
+    lock = threading.Lock()
+    orig_stage = ctx.stage_specs
+
+    def locked_stage(extra_files=None):
+        with lock:
+            return orig_stage(extra_files)
+
+    ctx.stage_specs = locked_stage
+    apa_threads = [threading.Thread(target=apa, args=(inv,)) for inv, _ in FIXED_OBLIGATIONS]
+    [t.start() for t in apa_threads]
 
     def build(key, pkg, harness, hide):
         bins[key] = ctx.go_test_bin(pkg, harness=harness, hide_own_tests=hide)
@@ -335,27 +358,14 @@ def run(ctx):
     ctx.log("thresholds dominated by Q(N) on the whole table (Apalache lemma O1 applies): %s" % covered_by_proof)
 
     # ---- Apalache: unbounded N, C
-    obligations = [("InvQQ", "ok"), ("InvWitness", "ok"), ("InvQForm", "ok"), ("InvQTight", "ok"), ("InvQLive", "ok")]
+    obligations = list(FIXED_OBLIGATIONS)
     if forms.get("verifyHeader") == "N-6N/7":
         obligations.append(("InvHdrWouldIntersect", "violation"))  # documents the finding: expected counterexample
     elif forms.get("verifyHeader") == "max(N-6N/7,C+1)":
         obligations.append(("InvHdrWitnessWouldIntersect", "violation"))  # a witness threshold (C+1) is not a quorum
-    res = {}
-
-    def apa(inv):
-        res[inv] = ctx.apalache("Quorum_Apa.tla", inv=inv, length=0, timeout=600)
-
-    # parallel Apalache runs: spec staging is serialized (ctx.stage_specs numbers its scratch dirs)
-    lock = threading.Lock()
-    orig_stage = ctx.stage_specs
-
-    def locked_stage(extra_files=None):
-        with lock:
-            return orig_stage(extra_files)
-
-    ctx.stage_specs = locked_stage
-    th = [threading.Thread(target=apa, args=(inv,)) for inv, _ in obligations]
-    [t.start() for t in th]
+    # the five closed-form lemmas were started at the beginning of the run; only the form-dependent obligation starts here
+    th = apa_threads + [threading.Thread(target=apa, args=(inv,)) for inv, _ in obligations[len(FIXED_OBLIGATIONS):]]
+    [t.start() for t in th[len(apa_threads):]]
     [t.join() for t in th]
     ctx.stage_specs = orig_stage
     discharged = 0
